@@ -14,6 +14,7 @@ import PV.Model.Registry
 import PV.Model.LCOM
 import PV.Model.CBO
 import PV.Model.Clone
+import PV.Model.Imports
 /-!
 Line-protocol driver: runs the executable models on the cases the harness also ran on the
 implementation.  Core-only imports (links as a native executable).
@@ -392,6 +393,50 @@ def runClones (t : Array String) : String :=
     s!"P {showPairs ps} | C {joinWith ";" cs} | S {joinWith ";" ss}"
   | _ => "bad-op"
 
+/-! ### imports (C12) -/
+def modOf (s : String) : PV.Imports.Mod := if s == "-" || s == "" then [] else s.splitOn "."
+def showMod (m : PV.Imports.Mod) : String := joinWith "." m
+def showMods (l : List PV.Imports.Mod) : String :=
+  let xs := (l.map showMod).toArray.qsort (· < ·)
+  if xs.isEmpty then "-" else joinWith "," xs.toList
+
+/-- `imports nmods mods… npkgs pkgs… nexports (pkg name src)… A nstmts (tc kind level module names)…` → `R <required> | A <allowed>` -/
+def runImports (t : Array String) : String :=
+  if t.size < 1 then "bad-op" else
+  let nm := tokN t[0]!
+  let mods := (List.range nm).map fun k => modOf (t.getD (1 + k) "")
+  let p1 := 1 + nm
+  let np := tokN (t.getD p1 "0")
+  let pkgs := (List.range np).map fun k => modOf (t.getD (p1 + 1 + k) "")
+  let p2 := p1 + 1 + np
+  let ne := tokN (t.getD p2 "0")
+  let exports := (List.range ne).map fun k => (modOf (t.getD (p2 + 1 + 3 * k) ""), t.getD (p2 + 2 + 3 * k) "", modOf (t.getD (p2 + 3 + 3 * k) ""))
+  let p3 := p2 + 1 + 3 * ne
+  let A := modOf (t.getD p3 "")
+  let ns := tokN (t.getD (p3 + 1) "0")
+  let stmts : List PV.Imports.Stmt := (List.range ns).map fun k =>
+    let b := p3 + 2 + 5 * k
+    let tc := tokB (t.getD b "0")
+    let level := tokN (t.getD (b + 2) "0")
+    let m := modOf (t.getD (b + 3) "-")
+    let names := let x := t.getD (b + 4) "-"; if x == "-" then [] else x.splitOn ","
+    { imp := if t.getD (b + 1) "p" == "p" then .plain m else .from_ level m names, typeChecking := tc }
+  let L : PV.Imports.Layout := { mods := mods, pkgs := pkgs, exports := exports }
+  s!"R {showMods (PV.Imports.requiredEdges L A stmts)} | A {showMods (PV.Imports.allowedEdges L A stmts)}"
+
+/-- `deps n m (a b)*m` → graph bookkeeping: `edges | out degrees | in degrees | maxDepth` -/
+def runDeps (t : Array String) : String :=
+  if t.size < 2 then "bad-op" else
+  let n := tokN t[0]!
+  let m := tokN t[1]!
+  let ops := (List.range m).map fun k => (tokN (t.getD (2 + 2 * k) "0"), tokN (t.getD (3 + 2 * k) "0"))
+  let g := PV.Imports.Graph.build (List.range n) ops
+  let adj : Nat → List Nat := fun a => (g.edges.filter fun e => e.1 == a).map (·.2)
+  let es := joinWith "," (g.edges.map fun e => s!"{e.1}>{e.2}")
+  let od := joinWith "," ((List.range n).map fun k => toString (g.outDeg k))
+  let idg := joinWith "," ((List.range n).map fun k => toString (g.inDeg k))
+  s!"{es}|{od}|{idg}|{PV.Imports.maxDepth (List.range n) adj}"
+
 def step (line : String) : String :=
   let parts := (line.splitOn " ").filter (· ≠ "")
   match parts with
@@ -413,6 +458,8 @@ def step (line : String) : String :=
     | "lcom" => runLcom t
     | "cbo" => runCbo t
     | "clones" => runClones t
+    | "imports" => runImports t
+    | "deps" => runDeps t
     | _ => "bad-op"
 
 partial def loop (h : IO.FS.Stream) (out : IO.FS.Stream) : IO Unit := do
